@@ -5,7 +5,7 @@ From Coq Require Import ZArith NArith List.
 From Flocq Require Import IEEE754.Binary IEEE754.Bits.
 From GV Require Import Base.Result Model.Num Model.Literals Spec.LitDenote.
 Cd "../build/ocaml".
-Extraction "lit_model.ml" parse_simple_number parse_char_list parse_byte_list
+Extraction "lit_model.ml" parse_f64 parse_simple_number parse_char_list parse_byte_list
   symbol_key chars_count str_len
   simple_store_chars basic_store_chars simple_store_bytes basic_store_bytes
   basic_parse_add_symbol basic_get_symbol_string
